@@ -125,9 +125,10 @@ def explore_tickets(ctx, binary, tid, traces, stats):
     crashroot = os.path.join(ctx.scratch, "tkc-%s" % tid)
     shutil.rmtree(root, ignore_errors=True)
     os.makedirs(root)
-    for step, mode in enumerate(["issue", "use", "issue", "issue", "use"], 1):
+    # (mode, bridge): the store keeps one ticket per bridge address, so its file grows and shrinks
+    for step, (mode, br) in enumerate([("issue", "1"), ("use", "1"), ("issue", "1"), ("issue", "2"), ("use", "1"), ("issue", "3"), ("use", "2")], 1):
         snap = crashfs.snapshot(root)
-        res, ops = run_helper(ctx, binary, ["ssdial", root, mode], traced_root=root)
+        res, ops = run_helper(ctx, binary, ["ssdial", root, mode, br], traced_root=root)
         if not res.get("ok"):
             # the driver could not run the session (eg the handshake itself is broken): not this property's business
             stats["ticket_sessions_failed"] += 1
@@ -135,11 +136,17 @@ def explore_tickets(ctx, binary, tid, traces, stats):
         for k, variant, state in crashfs.crash_states(snap, ops):
             crashfs.materialize(state, crashroot)
             r2, _ = run_helper(ctx, binary, ["ssfactory", crashroot])
+            ev = [{"event": "TicketKilled", "step": step, "mode": mode, "k": k, "variant": variant, "after": crashfs.describe(ops[k - 1])},
+                  {"event": "TicketFactory", "ok": bool(r2.get("ok")), "err": r2.get("err", "")[:200]}]
+            # ... and life goes on in that directory: whatever the kill left behind (a stale temporary file, say) must not
+            # poison the NEXT updates of the store - a session that uses up a ticket (a shorter file), one that stores one
+            for after, abr in (("use", "1"), ("use", "2"), ("issue", "2"), ("use", "3")):
+                run_helper(ctx, binary, ["ssdial", crashroot, after, abr])
+                r3, _ = run_helper(ctx, binary, ["ssfactory", crashroot])
+                ev.append({"event": "TicketFactory", "ok": bool(r3.get("ok")), "err": r3.get("err", "")[:200], "after": after + abr})
             traces.append({"id": "%s-t%d-k%d-%s" % (tid, step, k, variant),
                            "scenario": {"tickets": True, "step": step, "mode": mode, "after_call": k, "variant": variant},
-                           "events": [{"event": "TicketKilled", "step": step, "mode": mode, "k": k, "variant": variant,
-                                       "after": crashfs.describe(ops[k - 1])},
-                                      {"event": "TicketFactory", "ok": bool(r2.get("ok")), "err": r2.get("err", "")[:200]}]})
+                           "events": ev})
             stats["ticket_crash_states"] += 1
     shutil.rmtree(root, ignore_errors=True)
     shutil.rmtree(crashroot, ignore_errors=True)
